@@ -56,8 +56,9 @@ def judge(byc, res):
             if all_claimed:
                 # a line all of whose namespace positions are claimed by the statement: the names must be gone from the WHOLE line
                 for comp in sorted(planted):
-                    if comp in rw.raw:
-                        where = [l3.abstract_path(path) for path, n in jsonx.leaves(rw.out) if n[0] == 'str' and comp in n[1]][:3]
+                    # (an all-digit component is searched for as a token of its own: the canaries of other leaves carry serial numbers)
+                    if (re.search(r"(?<![0-9A-Za-z])%s(?![0-9A-Za-z])" % re.escape(comp), rw.raw) if comp.isdigit() else comp in rw.raw):
+                        where = [l3.abstract_path(path) for path, n in jsonx.leaves(rw.out) if n[0] == 'str' and comp in n[1] and not (comp.isdigit() and "q%sx" % comp in n[1])][:3]
                         bad = (comp, ", ".join(where) or "a key")
                         break
             else:
